@@ -85,28 +85,30 @@ def jobs(tier):
         return out
     if tier == "thorough":
         U = dict(ulist=3, ulab=3)
+        U2 = dict(ulist=3, ulab=2)
         out += vv(D, "Bss", VV, **U)
         out += vv(D, "Bss", VV_QUICK, nm=2, ulist=2, ulab=2, n2_nm=0)
         for sk, a, o in (("BsAs", 2, 3), ("BAss", 1, 2)):
             pin = {"n%d_nm" % o: 0}
-            out += vv(D, sk, VV, **U, **pin, **{"n%d_aop" % a: [0, 1], "n%d_aggop" % a: 0})
-            out += vv(D, sk, VV, **U, **pin, **{"n%d_aop" % a: 2, "n%d_cvl" % a: [0, 1, 2]})
+            out += vv(D, sk, VV, **U2, **pin, **{"n%d_aop" % a: [0, 1], "n%d_aggop" % a: 0})
+            out += vv(D, sk, VV_QUICK, **U2, **pin, **{"n%d_aop" % a: 2, "n%d_cvl" % a: [0, 2]})
             out += vv(D, sk, VV_QUICK, ulist=2, ulab=2, **{"n%d_aop" % a: 0, "n%d_aggop" % a: [1, 7, 8]})
         out += vv(D, "BAsAs", VV, nm=0, **U, n1_aop=0, n1_aggop=0, n3_aop=[0, 1], n3_aggop=0)
-        out += vv(D, "BAsAs", VV_QUICK, nm=1, ulist=2, ulab=2, n1_aop=0, n1_aggop=0, n3_aop=0, n3_aggop=0)
-        out += expand(D, "Bvn", n0_op=[0, 1, 2], n0_cmp=[0, 1, 2, 3, 4, 5], n0_arith=[0, 1, 2, 3, 4, 5, 6])
-        out += expand(D, "Bnv", n0_op=[0, 1, 2], n0_cmp=[0, 1, 2, 3, 4, 5], n0_arith=[0, 1, 2, 3, 4, 5, 6])
+        out += vv(D, "BAsAs", VV_QUICK, nm=1, ulist=2, ulab=1, n1_aop=0, n1_aggop=0, n3_aop=0, n3_aggop=0)
+        out += expand(D, "Bvn", n0_op=[1, 2], n0_cmp=[0, 1, 2, 3, 4, 5]) + expand(D, "Bvn", n0_op=0, n0_arith=[0, 1, 2, 3, 4, 5, 6])
+        out += expand(D, "Bnv", n0_op=[1, 2], n0_cmp=[0, 1, 2, 3, 4, 5]) + expand(D, "Bnv", n0_op=0, n0_arith=[0, 1, 2, 3, 4, 5, 6])
         out += expand(D, "Bsn", n0_op=[0, 1, 2], **U) + expand(D, "Bns", n0_op=[0, 1, 2], **U)
         out += vv(D, "Bvv", VV, n0_cmp=[0, 1, 2, 3, 4, 5], **U)
         out += vv(D, "Bvs", VV, **U) + vv(D, "Bsv", VV, **U)
-        for sk, f, o in (("BsFs", 2, 1), ("BFss", 1, 3)):
-            out += vv(D, sk, VV, **U, **{"n%d_fn" % f: [0, 1], "n%d_fnalt" % f: [0, 2]})
-            out += vv(D, sk, VV, **U, **{"n%d_fn" % f: 2, "n%d_fnalt" % f: 0, "n%d_dst" % f: [0, 1, 2]})
-        out += vv(D, "BBsss", VV_QUICK, ulist=2, ulab=2, n1_op=[0, 3, 5], n1_card=[0, 1], n1_arith=0, n4_nm=0)
-        out += vv(D, "BsBss", VV_QUICK, ulist=2, ulab=2, n2_op=[0, 3, 5], n2_card=[0, 1], n2_arith=0, n1_nm=0)
+        for sk, f in (("BsFs", 2), ("BFss", 1)):
+            out += vv(D, sk, VV_QUICK, **U2, **{"n%d_fn" % f: [0, 1], "n%d_fnalt" % f: [0, 2]})
+            out += vv(D, sk, VV_QUICK, **U2, **{"n%d_fn" % f: 2, "n%d_fnalt" % f: 0, "n%d_dst" % f: [0, 1, 2]})
+        NEST = [(0, 0), (0, 1), (3, 0), (5, 0)]
+        out += vv(D, "BBsss", NEST, ulist=2, ulab=1, n1_op=[0, 5], n1_card=0, n1_arith=0, n4_nm=0)
+        out += vv(D, "BsBss", NEST, ulist=2, ulab=1, n2_op=[0, 5], n2_card=0, n2_arith=0, n1_nm=0)
         out += expand(D, "BAvn", n0_op=[1, 2], n0_cmp=[0, 1, 2, 3, 4, 5], n1_aop=[0, 1, 2], ulist=1)
         out += expand(D, "BFvn", n0_op=[1, 2], n0_cmp=[0, 1, 2, 3, 4, 5], n1_fn=[0, 2])
-        out += expand(D, "BBvnn", n0_op=[1, 2], n0_cmp=[0, 1, 2], n1_op=[0, 2], n1_arith=[0, 1, 2, 3], n1_cmp=[0, 1])
+        out += expand(D, "BBvnn", n0_op=[1, 2], n0_cmp=[0, 1, 2], n1_op=0, n1_arith=[0, 1, 2, 3]) + expand(D, "BBvnn", n0_op=[1, 2], n0_cmp=[0, 1, 2], n1_op=2, n1_cmp=[0, 1])
         out += vv(D, "BAvs", VV_QUICK, ulist=2, ulab=2, n1_aop=0, n1_aggop=0)
         out += vv(D, "BAsv", VV_QUICK, ulist=2, ulab=2, n1_aop=0, n1_aggop=0)
         out += vv(D, "BvAs", VV_QUICK, ulist=2, ulab=2, n2_aop=0, n2_aggop=0)
@@ -118,9 +120,10 @@ def jobs(tier):
                          ("BsAFs", dict(n1_nm=0, n3_fn=[0, 2], n3_fnalt=0, n3_dst=0, n2_aop=0, n2_aggop=0)),
                          ("BAsFs", dict(n2_nm=0, n3_fn=0, n3_fnalt=0, n1_aop=0, n1_aggop=0)),
                          ("BFsAs", dict(n4_nm=0, n1_fn=0, n1_fnalt=0, n3_aop=0, n3_aggop=0)),
-                         ("BFAsAs", dict(n5_nm=0, n1_fn=0, n1_fnalt=0, n2_aop=0, n2_aggop=0, n4_aop=0, n4_aggop=0)),
-                         ("BAsFAs", dict(n2_nm=0, n3_fn=0, n3_fnalt=0, n1_aop=0, n1_aggop=0, n4_aop=0, n4_aggop=0))):
-            out += vv(D, sk, VV_QUICK, ulist=2, ulab=2, **pins)
+                         ("BFAsAs", dict(ulab=1, n5_nm=0, n1_fn=0, n1_fnalt=0, n2_aop=0, n2_aggop=0, n4_aop=0, n4_aggop=0)),
+                         ("BAsFAs", dict(ulab=1, n2_nm=0, n3_fn=0, n3_fnalt=0, n1_aop=0, n1_aggop=0, n4_aop=0, n4_aggop=0))):
+            pins.setdefault("ulab", 2)
+            out += vv(D, sk, VV_QUICK, ulist=2, **pins)
         return out
     return out
 
